@@ -279,6 +279,7 @@ def execute(scenario, chooser):
                 sim.sleep(r['pause'])
             o = {'path': r['path'], 'j0': len(jlog), 'f0': len(fs.opened),
                  'r0': len(flask_stub.rendered), 'ev0': sim.next_event(),
+                 'queued_before': [a.name for a in wa._jobs.get_queued()],
                  'running_before': [a.name for a in
                                     ([wa._jobs.get_current()]
                                      if wa._jobs.get_current() else []) +
@@ -563,6 +564,31 @@ def judge(sc, obs, st, violation, probes, res):
             if new_jobs or stops:
                 violation('page-acted', '{}: {} {}'.format(where, new_jobs,
                                                            stops))
+    # ---- stop-all: what was queued never starts afterwards ------------------
+    for i, o in enumerate(obs):
+        if _route_of(o['path']) != '/stop-all' or not o['queued_before']:
+            continue
+        # (a name that is also running at that moment is ambiguous: the
+        # same path can be queued again while its first job still runs)
+        banned = set(o['queued_before']) - set(o['running_before'])
+        # a job that left the queue just before it was cleared and was then
+        # the target of this request's stop-current has been dealt with
+        # (whether that stop took effect is C09's business)
+        banned -= {j['name'] for j in o['jobs']
+                   if j['op'] == 'stop_current'}
+        for k in range(i, len(obs)):
+            later = obs[k]
+            if k > i:
+                for j in later['jobs']:
+                    if j['op'] in ('add', 'spawn', 'insert'):
+                        banned.discard(j['name'])     # handed over again
+            ran = banned & set(later['running_after'])
+            if ran:
+                violation('stop-all-started-queued-job',
+                          'request #{} GET /stop-all: {} was queued when the '
+                          'request arrived and is running after request #{}'
+                          .format(i + 1, sorted(ran), k + 1))
+                break
     # ---- only manifest files are ever executed ----------------------------
     listed = {'scripts/' + e['file_name'] for e in sc['manifest']
               if e['file_name']}
